@@ -209,7 +209,7 @@ pub fn replay(case: &Value) -> Vec<Failure> {
         _ => Some(("C18:bad-replay-file".to_string(), "unknown kind".to_string())),
     };
     if let Some((signature, detail)) = r {
-        out.push(Failure { signature, case: case.clone(), detail });
+        out.push(Failure { signature, case: case.clone(), detail, hash: 0 });
     }
     out
 }
